@@ -52,8 +52,10 @@ def quote(s, style):
 
 
 def _quota_engine():
+    # (the iterator limit bounds collections; a string is not one, however
+    # many characters it has)
     return common.engine({'yaql.memoryQuota': 10 ** 7,
-                          'yaql.limitIterators': 10 ** 5})
+                          'yaql.limitIterators': 2})
 
 
 def evaluate(text, eng=None):
